@@ -954,17 +954,39 @@ func NewStreamMessage(streamID int) *Message {
 	return v
 }
 
+// Generate the chunk basic header in 1, 2 or 3 bytes, depends on the chunk stream id.
+// Please read @doc rtmp_specification_1.0.pdf, @page 17, @section 6.1.1. Chunk Basic Header
+func (v *Message) generateBasicHeader(format formatType) ([]byte, error) {
+	cid, fb := uint32(v.betterCid), byte(format)<<6
+
+	switch {
+	case cid >= 2 && cid <= 63:
+		return []byte{fb | byte(cid)}, nil
+	case cid >= 64 && cid <= 319:
+		return []byte{fb, byte(cid - 64)}, nil
+	case cid >= 320 && cid <= 65599:
+		return []byte{fb | 0x01, byte(cid - 64), byte((cid - 64) >> 8)}, nil
+	}
+
+	return nil, oe.Errorf("invalid chunk stream id %v", cid)
+}
+
 func (v *Message) generateC3Header() ([]byte, error) {
+	bh, err := v.generateBasicHeader(formatType3)
+	if err != nil {
+		return nil, err
+	}
+
 	var c3h []byte
 	if v.Timestamp < extendedTimestamp {
-		c3h = make([]byte, 1)
+		c3h = make([]byte, len(bh))
 	} else {
-		c3h = make([]byte, 1+4)
+		c3h = make([]byte, len(bh)+4)
 	}
 
 	p := c3h
-	p[0] = 0xc0 | byte(v.betterCid&0x3f)
-	p = p[1:]
+	copy(p, bh)
+	p = p[len(bh):]
 
 	// In RTMP protocol, there must not any timestamp in C3 header,
 	// but actually all products from adobe, such as FMS/AMS and Flash player and FMLE,
@@ -981,16 +1003,21 @@ func (v *Message) generateC3Header() ([]byte, error) {
 }
 
 func (v *Message) generateC0Header() ([]byte, error) {
+	bh, err := v.generateBasicHeader(formatType0)
+	if err != nil {
+		return nil, err
+	}
+
 	var c0h []byte
 	if v.Timestamp < extendedTimestamp {
-		c0h = make([]byte, 1+3+3+1+4)
+		c0h = make([]byte, len(bh)+3+3+1+4)
 	} else {
-		c0h = make([]byte, 1+3+3+1+4+4)
+		c0h = make([]byte, len(bh)+3+3+1+4+4)
 	}
 
 	p := c0h
-	p[0] = byte(v.betterCid) & 0x3f
-	p = p[1:]
+	copy(p, bh)
+	p = p[len(bh):]
 
 	if v.Timestamp < extendedTimestamp {
 		p[0] = byte(v.Timestamp >> 16)
